@@ -355,6 +355,7 @@ def execute_dict(trace):
                     log.append(["restart", "ok"])
     finally:
         shutil.rmtree(run_dir, ignore_errors=True)
+    violation = _mask_dir(violation, run_dir)
     return {"violation": violation, "probes": probes, "faults": faults_out(probes), "states": set(), "trans": set(),
             "steps": len(trace["ops"]), "log": digest_hex([log, violation]),
             "extra": {f"family:{fam.name}": 1, "feather_writes": diskseam.STATE["total_writes"], "feather_reads": diskseam.STATE["total_reads"]}}
@@ -737,6 +738,7 @@ def execute(trace):
     if hit_np[0]:
         probes["numpy_integer_key"] = hit_np[0]
         hit_np[0] = 0
+    violation = _mask_dir(violation, run_dir)
     return {"violation": violation, "probes": probes, "faults": faults_out(probes), "states": states, "trans": trans,
             "steps": len(trace["ops"]), "log": digest_hex([log, violation]),
             "extra": {f"family:{fam.name}": 1, "feather_writes": diskseam.STATE["total_writes"],
@@ -772,6 +774,14 @@ def xprocess_compare(fam, k, run_dir, op, keys, loader, sut):
             return {"id": i, "this_process": (mine or "None")[:500], "other_process": (theirs or "None")[:500],
                     "hashseed_other": op["xprocess_hashseed"]}
     return None
+
+
+def _mask_dir(violation, run_dir):
+    """error texts quote the scratch directory, whose name differs from process to process: never let it into logs or replays"""
+    if violation is None:
+        return None
+    import json as _json
+    return _json.loads(_json.dumps(violation, default=repr).replace(run_dir, "<D>").replace(_root, "<ROOT>"))
 
 
 def faults_out(probes):
